@@ -36,7 +36,11 @@ def surf_tokens(s, w):
     t = [kind] + [fhex(scal(v)) for v in (cs.x, cs.y, cs.z, cs.rx, cs.ry, cs.rz)]
     t += geom_tokens(s.geometry)
     pre = s.material_pre if s.material_pre is not None else s.material_post
-    t += [fhex(scal(pre.n(w))), fhex(scal(s.material_post.n(w))), fhex(scal(pre.k(w))), b01(s.is_reflective)]
+    try:
+        k1 = scal(pre.k(w))
+    except ValueError:
+        k1 = 0.0        # catalogue medium without a k table: no attenuation (after the repair of F16)
+    t += [fhex(scal(pre.n(w))), fhex(scal(s.material_post.n(w))), fhex(k1), b01(s.is_reflective)]
     if s.aperture is not None:
         t += ['1', fhex(s.aperture.r_max), fhex(s.aperture.r_min)]
     else:
